@@ -683,6 +683,11 @@ class Interp:
         if self.chol == "contract":
             if A.ndim != 2:
                 raise Unsupported("cholesky batched")
+            def _same(u, v):
+                return (u is v) or (z3.is_expr(u) and z3.is_expr(v) and (u.eq(v) or z3.simplify(u).eq(z3.simplify(v))))
+            for A0, L0 in self.chols:       # the factor is a function of the matrix: the same argument (term by term) gets the same factor
+                if A0.shape == A.shape and all(_same(A0[i, j], A[i, j]) for i in range(n) for j in range(n)):
+                    return L0
             t = len(self.chols)
             L = np.empty((n, n), dtype=object)
             for i in range(n):
